@@ -148,6 +148,10 @@ func execPlan(t *testing.T, prop Property2, p *Plan2) (res *Result2) {
 			msg := fmt.Sprint(x)
 			if strings.Contains(msg, "deadlock") {
 				res.Err = "bubble-deadlock: " + msg
+				if os.Getenv("VERIF_DEBUG_STACKS") != "" {
+					buf := make([]byte, 1<<20)
+					fmt.Fprintf(os.Stderr, "%s\n", buf[:runtime.Stack(buf, true)])
+				}
 			} else {
 				res.Err = "harness-panic: " + msg + "\n" + string(debug.Stack())
 			}
@@ -157,6 +161,10 @@ func execPlan(t *testing.T, prop Property2, p *Plan2) (res *Result2) {
 		start := time.Now()
 		prop.Exec(p, res)
 		res.SimMs = time.Since(start).Milliseconds()
+		// a component's own goroutine may still be backing off on a lock (Sched.Yield): the bubble's clock
+		// stops when this function returns, so give it the few simulated seconds it needs to see the
+		// lock free, notice that it has been told to stop, and leave
+		time.Sleep(5 * time.Second)
 	})
 	sort.SliceStable(res.Violations, func(i, j int) bool { return res.Violations[i].Class < res.Violations[j].Class })
 	return res
